@@ -85,6 +85,26 @@ func checkJoinNames(p *Program, r *Report, rule string) {
 		return
 	}
 	fns := append([]*ssa.Function{fn}, fn.AnonFuncs...)
+	// helpers and methods of the package that joinNames calls (a closure turned into a method, …)
+	for i := 0; i < len(fns) && len(fns) < 12; i++ {
+		for _, b := range fns[i].Blocks {
+			for _, in := range b.Instrs {
+				if c, ok := in.(*ssa.Call); ok {
+					if g := staticCallee(c.Common()); g != nil && g.Pkg == fn.Pkg && g.Blocks != nil {
+						dup := false
+						for _, h := range fns {
+							if h == g {
+								dup = true
+							}
+						}
+						if !dup {
+							fns = append(fns, g)
+						}
+					}
+				}
+			}
+		}
+	}
 	// dependency edges value -> values it is computed from
 	deps := map[ssa.Value][]ssa.Value{}
 	add := func(v ssa.Value, from ...ssa.Value) { deps[v] = append(deps[v], from...) }
